@@ -111,6 +111,10 @@ def build_sky_leaf(d, w):
     if d['cls'] == 'TextSkyRegion' and prng.random() < 0.7:
         sp['visual']['rotation'] = prng.choice([prng.uniform(-180, 180), 0, 0.0, 90.0])
     reg = S.build(sp)
+    if d['cls'] == 'LineSkyRegion' and prng.random() < 0.4:
+        # the two end points of a line need not be given in the same frame
+        other = prng.choice([f for f in ('icrs', 'galactic', 'fk4', 'fk5') if f != reg.end.frame.name])
+        reg.end = reg.end.transform_to(other)
     if c.frame.name == d['frame'] and c.frame.name == 'fk5' and abs(c.frame.equinox.jyear - 2000.0) > 1e-9:
         # re-create the coordinates in the WCS's exact frame (S.sky() specs name frames without attributes)
         from astropy.coordinates import SkyCoord
@@ -174,7 +178,10 @@ def compare_regions(obs, a, b, what, wcs=None, weak=False):
             elif isinstance(va, SkyCoord):
                 same_frame = va.frame.name == vb.frame.name
                 sep = va.separation(vb.transform_to(va.frame) if not same_frame else vb).deg
-                tol = 1e-6 * (L if L else 1.0 / 3600) + (3e-7 if weak else 0.0)      # FK4<->ICRS e-term round trip noise in astropy itself
+                if not np.all(np.isfinite(np.asarray(sep))):
+                    obs.skip(1, 'offsky')          # an end point outside the projection's domain: nothing to compare
+                    continue
+                tol = 1e-6 * (L if L else 1.0 / 3600) + (1e-6 if (weak or not same_frame) else 0.0)      # FK4<->FK5/ICRS e-term round trip noise in astropy itself (observed up to 1.4e-8 deg)
                 obs.check(np.shape(sep) == np.shape(va.data.lon) and bool(np.all(np.asarray(sep) <= max(tol, 1e-11))), 'roundtrip-sky-position-changed',
                           f'{what}.{p} moved by {np.max(sep):.3g} deg (tolerance {tol:.3g})', 'param')
             elif weak:
